@@ -63,6 +63,10 @@ ZStep ==
      /\ Chk("C13", "ContentsAsSpecified", (~panicked /\ ~x.panics /\ len0 >= 0 /\ ~x.gone) => e.alive = 1 /\ e.len = x.len, <<x.len, e.len>>)
      /\ Chk("C13", "ReturnsAsSpecified", (~panicked /\ ~x.panics /\ e.op # "zdrop") => e.zr = x.ret, <<x.ret, e.zr>>)
      /\ Chk("C13", "CapacityNeverBelowLength", e.alive = 1 => e.cap >= e.len, <<e.len, e.cap>>)
+     \* Box<[T]> -> Box<[T; 3]> succeeds exactly for length 3 (also when T is zero-sized); otherwise the
+     \* slice comes back whole (retn = -length)
+     /\ Chk("C17", "BoxedSliceToArrayChecksTheLength",
+            (e.op = "zbox_try_array" /\ ~panicked) => e.retn = (IF e.a = 3 THEN 1 ELSE 0 - e.a), <<e.a, e.retn>>)
      \* every element created is in the vector, with the caller, or destroyed -- exactly once
      /\ Chk("C15", "EveryElementAccountedForExactlyOnce",
             ~panicked => (IF len0 < 0 THEN 0 ELSE len0) + held0 + e.zc = lenA + (held0 + e.zr) + e.zd,
@@ -173,6 +177,11 @@ TStep ==
                => e.len + e.a > e.cap0, <<e.len, e.a, e.cap0>>)
      /\ Chk("C18", "PushGrowthAtLeastDoubles",
             (e.moved = 1 /\ e.op = "push" /\ e.cap0 > 0) => e.cap >= 2 * e.cap0, <<e.cap0, e.cap>>)
+     \* amortised growth: whenever a growing call has to move the buffer it at least doubles the capacity
+     \* (new capacity = max(2 * old capacity, what is needed)); reserve_exact / shrink_to_fit are exempt
+     /\ Chk("C18", "AmortisedGrowthAtLeastDoubles",
+            (e.moved = 1 /\ e.cap0 > 0 /\ ~panicked /\ e.op \in (GrowOps \cup {"reserve", "try_reserve"})) => e.cap >= 2 * e.cap0,
+            <<e.op, e.cap0, e.cap>>)
      \* ---------------------------------------------------------------------
      /\ V' = e.all /\ B' = e.bx /\ held' = heldA /\ dropped' = dropped0 \cup drops
      /\ UNCHANGED <<zlen, zheld, cv>>
